@@ -59,26 +59,39 @@ theorem MonoR.bind {α β : Type} {a b : R α} {f g : α → R β} (h : MonoR a 
 
 /-! ### generic lifting from script evaluation to VerifyScript -/
 
-/-- A flag tweak `tw fl b` (set one flag to `b`) that the sequencing code of `VerifyScript` never looks at
-and under which script evaluation is monotone. -/
-structure EvalTightening (tw : Flags → Bool → Flags) : Prop where
+/-- A flag tweak `tw fl b` (set one flag to `b`) under which script evaluation is monotone and which
+`ExecuteWitnessScript` does not look at. -/
+structure ExecTightening (tw : Flags → Bool → Flags) : Prop where
   eval : ∀ fl chk sv xd script stack w,
     MonoR (evalScript { flags := tw fl true, sv := sv, chk := chk, xd := xd } script stack w)
           (evalScript { flags := tw fl false, sv := sv, chk := chk, xd := xd } script stack w)
+  dOpSuccess : ∀ fl b, (tw fl b).discourageOpSuccess = fl.discourageOpSuccess
+
+/-- … and which the sequencing code of `VerifyScript` / `VerifyWitnessProgram` never looks at either. -/
+structure EvalTightening (tw : Flags → Bool → Flags) : Prop extends ExecTightening tw where
   sigpushonly : ∀ fl b, (tw fl b).sigpushonly = fl.sigpushonly
   witness : ∀ fl b, (tw fl b).witness = fl.witness
   p2sh : ∀ fl b, (tw fl b).p2sh = fl.p2sh
   cleanstack : ∀ fl b, (tw fl b).cleanstack = fl.cleanstack
   taproot : ∀ fl b, (tw fl b).taproot = fl.taproot
-  dOpSuccess : ∀ fl b, (tw fl b).discourageOpSuccess = fl.discourageOpSuccess
   dTapVer : ∀ fl b, (tw fl b).discourageTaprootVersion = fl.discourageTaprootVersion
   dWitProg : ∀ fl b, (tw fl b).discourageWitnessProgram = fl.discourageWitnessProgram
 
-section
-variable {tw : Flags → Bool → Flags} (T : EvalTightening tw)
-include T
+/-- What `VerifyScript` itself needs: monotone evaluation and witness-program verification, and the flags it
+reads directly unchanged. -/
+structure SeqTightening (tw : Flags → Bool → Flags) : Prop where
+  eval : ∀ fl chk sv xd script stack w,
+    MonoR (evalScript { flags := tw fl true, sv := sv, chk := chk, xd := xd } script stack w)
+          (evalScript { flags := tw fl false, sv := sv, chk := chk, xd := xd } script stack w)
+  wp : ∀ fl chk wit ver prog p,
+    MonoR (verifyWitnessProgram (tw fl true) chk wit ver prog p) (verifyWitnessProgram (tw fl false) chk wit ver prog p)
+  sigpushonly : ∀ fl b, (tw fl b).sigpushonly = fl.sigpushonly
+  witness : ∀ fl b, (tw fl b).witness = fl.witness
+  p2sh : ∀ fl b, (tw fl b).p2sh = fl.p2sh
+  cleanstack : ∀ fl b, (tw fl b).cleanstack = fl.cleanstack
 
-theorem executeWitnessScript_mono (fl : Flags) (chk : Checker) (sv : SigVer) (xd : ExecData) (w : Int)
+theorem executeWitnessScript_mono {tw : Flags → Bool → Flags} (T : ExecTightening tw)
+    (fl : Flags) (chk : Checker) (sv : SigVer) (xd : ExecData) (w : Int)
     (stack : List Bytes) (script : Bytes) :
     MonoR (executeWitnessScript (tw fl true) chk sv xd w stack script)
           (executeWitnessScript (tw fl false) chk sv xd w stack script) := by
@@ -92,45 +105,7 @@ theorem executeWitnessScript_mono (fl : Flags) (chk : Checker) (sv : SigVer) (xd
     · exact MonoR.refl _
     · exact MonoR.bind (T.eval fl chk sv xd script stack w) (fun out => MonoR.refl _)
 
-theorem verifyWitnessProgram_mono (fl : Flags) (chk : Checker) (wit : List Bytes) (ver : Nat) (prog : Bytes)
-    (p : Bool) :
-    MonoR (verifyWitnessProgram (tw fl true) chk wit ver prog p)
-          (verifyWitnessProgram (tw fl false) chk wit ver prog p) := by
-  unfold verifyWitnessProgram
-  simp only [T.taproot, T.dTapVer, T.dWitProg]
-  split
-  · split
-    · split
-      · exact MonoR.refl _
-      · split
-        · exact MonoR.refl _
-        · exact executeWitnessScript_mono T _ _ _ _ _ _ _
-    · split
-      · split
-        · exact MonoR.refl _
-        · exact executeWitnessScript_mono T _ _ _ _ _ _ _
-      · exact MonoR.refl _
-  · split
-    · split
-      · exact MonoR.refl _
-      · split
-        · exact MonoR.refl _
-        · split
-          · exact MonoR.refl _
-          · exact MonoR.refl _
-          · split
-            · exact MonoR.refl _
-            · apply MonoR.bind (MonoR.refl _)
-              intro okc
-              split
-              · exact MonoR.refl _
-              · split
-                · exact executeWitnessScript_mono T _ _ _ _ _ _ _
-                · exact MonoR.refl _
-    · exact MonoR.refl _
-
-
-theorem verifyScript_mono (fl : Flags) (chk : Checker) (scriptSig scriptPubKey : Bytes) (wit : List Bytes) :
+theorem verifyScript_mono_seq {tw : Flags → Bool → Flags} (T : SeqTightening tw) (fl : Flags) (chk : Checker) (scriptSig scriptPubKey : Bytes) (wit : List Bytes) :
     MonoR (verifyScript (tw fl true) chk scriptSig scriptPubKey wit)
           (verifyScript (tw fl false) chk scriptSig scriptPubKey wit) := by
   unfold verifyScript baseCtx
@@ -148,7 +123,7 @@ theorem verifyScript_mono (fl : Flags) (chk : Checker) (scriptSig scriptPubKey :
       · split
         · split
           · exact MonoR.refl _
-          · exact MonoR.bind (verifyWitnessProgram_mono T _ _ _ _ _ _) (fun _ => MonoR.refl _)
+          · exact MonoR.bind (T.wp _ _ _ _ _ _) (fun _ => MonoR.refl _)
         · exact MonoR.refl _
       · exact MonoR.refl _
     · intro r1
@@ -166,7 +141,7 @@ theorem verifyScript_mono (fl : Flags) (chk : Checker) (scriptSig scriptPubKey :
               · split
                 · split
                   · exact MonoR.refl _
-                  · exact MonoR.bind (verifyWitnessProgram_mono T _ _ _ _ _ _) (fun _ => MonoR.refl _)
+                  · exact MonoR.bind (T.wp _ _ _ _ _ _) (fun _ => MonoR.refl _)
                 · exact MonoR.refl _
               · exact MonoR.refl _
         · exact MonoR.refl _
@@ -174,6 +149,57 @@ theorem verifyScript_mono (fl : Flags) (chk : Checker) (scriptSig scriptPubKey :
         exact MonoR.refl _
 
 
+
+
+section
+variable {tw : Flags → Bool → Flags} (T : EvalTightening tw)
+include T
+
+theorem verifyWitnessProgram_mono (fl : Flags) (chk : Checker) (wit : List Bytes) (ver : Nat) (prog : Bytes)
+    (p : Bool) :
+    MonoR (verifyWitnessProgram (tw fl true) chk wit ver prog p)
+          (verifyWitnessProgram (tw fl false) chk wit ver prog p) := by
+  unfold verifyWitnessProgram
+  simp only [T.taproot, T.dTapVer, T.dWitProg]
+  split
+  · split
+    · split
+      · exact MonoR.refl _
+      · split
+        · exact MonoR.refl _
+        · exact executeWitnessScript_mono T.toExecTightening _ _ _ _ _ _ _
+    · split
+      · split
+        · exact MonoR.refl _
+        · exact executeWitnessScript_mono T.toExecTightening _ _ _ _ _ _ _
+      · exact MonoR.refl _
+  · split
+    · split
+      · exact MonoR.refl _
+      · split
+        · exact MonoR.refl _
+        · split
+          · exact MonoR.refl _
+          · exact MonoR.refl _
+          · split
+            · exact MonoR.refl _
+            · apply MonoR.bind (MonoR.refl _)
+              intro okc
+              split
+              · exact MonoR.refl _
+              · split
+                · exact executeWitnessScript_mono T.toExecTightening _ _ _ _ _ _ _
+                · exact MonoR.refl _
+    · exact MonoR.refl _
+
+
+theorem EvalTightening.toSeq : SeqTightening tw :=
+  ⟨T.eval, verifyWitnessProgram_mono T, T.sigpushonly, T.witness, T.p2sh, T.cleanstack⟩
+
+theorem verifyScript_mono (fl : Flags) (chk : Checker) (scriptSig scriptPubKey : Bytes) (wit : List Bytes) :
+    MonoR (verifyScript (tw fl true) chk scriptSig scriptPubKey wit)
+          (verifyScript (tw fl false) chk scriptSig scriptPubKey wit) :=
+  verifyScript_mono_seq (EvalTightening.toSeq T) fl chk scriptSig scriptPubKey wit
 
 end
 
@@ -544,5 +570,217 @@ theorem dersig_tightening : EvalTightening (fun fl b => { fl with dersig := b })
   dOpSuccess := fun _ _ => rfl
   dTapVer := fun _ _ => rfl
   dWitProg := fun _ _ => rfl
+
+
+/-! ### flags the opcode interpreter never reads: WITNESS, TAPROOT, P2SH -/
+
+def setWitness (c : Ctx) (b : Bool) : Ctx := { c with flags := { c.flags with witness := b } }
+
+theorem setWitness_agree (c : Ctx) (b : Bool) : SigAgree c (setWitness c b) :=
+  ⟨fun _ => rfl, fun _ _ => rfl, rfl, rfl, rfl⟩
+
+theorem opCheckMultisig_witness (c : Ctx) (b v : Bool) (st : St) :
+    opCheckMultisig (setWitness c b) st v = opCheckMultisig c st v := by
+  unfold opCheckMultisig
+  simp only [multisigLoop_congr (setWitness_agree c b), multisigStrip_congr (setWitness_agree c b)]
+  rfl
+
+set_option maxHeartbeats 2000000 in
+theorem execOp_witness (c : Ctx) (b : Bool) (op : Nat) (rest : Bytes) (st : St) :
+    execOp (setWitness c b) op rest st = execOp c op rest st := by
+  unfold execOp
+  split <;> first | rfl | exact opCheckMultisig_witness c b _ st
+
+theorem witness_step : StepTightening setWitness :=
+  ⟨fun c op rest st => MonoR.of_eq (by rw [execOp_witness, execOp_witness]),
+   fun _ _ _ _ _ => rfl, fun _ _ => rfl, fun _ _ => rfl⟩
+
+/-- script evaluation does not depend on the WITNESS flag (success direction) -/
+theorem evalScript_witness_off (fl : Flags) (chk : Checker) (script : Bytes) (stack out : List Bytes)
+    (h : evalScript (baseCtx { fl with witness := true } chk) script stack = .ok out) :
+    evalScript (baseCtx { fl with witness := false } chk) script stack = .ok out :=
+  evalScript_mono witness_step (baseCtx fl chk) script stack 0 out h
+
+
+theorem verifyScript_witness_off (fl : Flags) (hcs : fl.cleanstack = false) (chk : Checker)
+    (scriptSig scriptPubKey : Bytes) (wit : List Bytes)
+    (h : verifyScript { fl with witness := true } chk scriptSig scriptPubKey wit = .ok ()) :
+    verifyScript { fl with witness := false } chk scriptSig scriptPubKey wit = .ok () := by
+  have ev : ∀ s st out, evalScript (baseCtx { fl with witness := true } chk) s st = .ok out →
+      evalScript (baseCtx { fl with witness := false } chk) s st = .ok out :=
+    fun s st out => evalScript_witness_off fl chk s st out
+  generalize hT : ({ fl with witness := true } : Flags) = flT at h ev
+  generalize hF : ({ fl with witness := false } : Flags) = flF at ev ⊢
+  have eTw : flT.witness = true := by rw [← hT]
+  have eFw : flF.witness = false := by rw [← hF]
+  have eTs : flT.sigpushonly = flF.sigpushonly := by rw [← hT, ← hF]
+  have eTp : flT.p2sh = flF.p2sh := by rw [← hT, ← hF]
+  have eFc : flF.cleanstack = false := by rw [← hF]; exact hcs
+  have eTc : flT.cleanstack = false := by rw [← hT]; exact hcs
+  unfold verifyScript at h ⊢
+  simp only [eTw, eFw, eTs, eTp, eFc, eTc, Bool.false_and, Bool.false_eq_true, if_false, if_true, bind,
+    Except.bind, pure, Except.pure] at h ⊢
+  split at h
+  · cases h
+  · rename_i hpo
+    rw [if_neg hpo]
+    split at h
+    · cases h
+    · rename_i stack0 h0
+      rw [ev _ _ _ h0]
+      simp only []
+      split at h
+      · cases h
+      · rename_i stack1 h1
+        rw [ev _ _ _ h1]
+        simp only []
+        split at h
+        · cases h
+        · rename_i u ht
+          split at h
+          · cases h
+          · rename_i r1 hr1
+            by_cases hp : (flF.p2sh && isP2SH scriptPubKey) = true
+            · simp only [hp, if_true] at h ⊢
+              by_cases hpu : (!isPushOnly scriptSig) = true
+              · simp only [hpu, if_true] at h; cases h
+              · simp only [hpu, if_false] at h ⊢
+                cases stack0 with
+                | nil => simp only [] at h; cases h
+                | cons redeem stackP =>
+                  simp only [] at h ⊢
+                  cases hR : evalScript (baseCtx flT chk) redeem stackP with
+                  | error e => rw [hR] at h; simp only [] at h; cases h
+                  | ok stackR =>
+                    rw [hR] at h; rw [ev _ _ _ hR]; simp only [] at h ⊢
+                    cases ht2 : topTrue stackR with
+                    | error e => rw [ht2] at h; simp only [] at h; cases h
+                    | ok u2 => rfl
+            · simp only [hp, Bool.false_eq_true, if_false]
+
+
+/-! ### TAPROOT -/
+
+def twTaproot (fl : Flags) (b : Bool) : Flags := { fl with taproot := b }
+def setTaproot (c : Ctx) (b : Bool) : Ctx := { c with flags := twTaproot c.flags b }
+
+theorem setTaproot_agree (c : Ctx) (b : Bool) : SigAgree c (setTaproot c b) :=
+  ⟨fun _ => rfl, fun _ _ => rfl, rfl, rfl, rfl⟩
+
+theorem opCheckMultisig_taproot (c : Ctx) (b v : Bool) (st : St) :
+    opCheckMultisig (setTaproot c b) st v = opCheckMultisig c st v := by
+  unfold opCheckMultisig
+  simp only [multisigLoop_congr (setTaproot_agree c b), multisigStrip_congr (setTaproot_agree c b)]
+  rfl
+
+set_option maxHeartbeats 2000000 in
+theorem execOp_taproot (c : Ctx) (b : Bool) (op : Nat) (rest : Bytes) (st : St) :
+    execOp (setTaproot c b) op rest st = execOp c op rest st := by
+  unfold execOp
+  split <;> first | rfl | exact opCheckMultisig_taproot c b _ st
+
+theorem taproot_step : StepTightening setTaproot :=
+  ⟨fun c op rest st => MonoR.of_eq (by rw [execOp_taproot, execOp_taproot]),
+   fun _ _ _ _ _ => rfl, fun _ _ => rfl, fun _ _ => rfl⟩
+
+theorem taproot_exec : ExecTightening twTaproot :=
+  ⟨fun fl chk sv xd s st w => evalScript_mono taproot_step { flags := fl, sv := sv, chk := chk, xd := xd } s st w,
+   fun _ _ => rfl⟩
+
+theorem verifyWitnessProgram_taproot_mono (fl : Flags) (chk : Checker) (wit : List Bytes) (ver : Nat)
+    (prog : Bytes) (p : Bool) :
+    MonoR (verifyWitnessProgram (twTaproot fl true) chk wit ver prog p)
+          (verifyWitnessProgram (twTaproot fl false) chk wit ver prog p) := by
+  unfold verifyWitnessProgram
+  have eT : (twTaproot fl true).taproot = true := rfl
+  have eF : (twTaproot fl false).taproot = false := rfl
+  have e1 : ∀ b, (twTaproot fl b).discourageTaprootVersion = fl.discourageTaprootVersion := fun _ => rfl
+  have e2 : ∀ b, (twTaproot fl b).discourageWitnessProgram = fl.discourageWitnessProgram := fun _ => rfl
+  simp only [eT, eF, e1, e2, Bool.not_true, Bool.not_false, Bool.false_eq_true, if_false, if_true]
+  split
+  · split
+    · split
+      · exact MonoR.refl _
+      · split
+        · exact MonoR.refl _
+        · exact executeWitnessScript_mono taproot_exec _ _ _ _ _ _ _
+    · split
+      · split
+        · exact MonoR.refl _
+        · exact executeWitnessScript_mono taproot_exec _ _ _ _ _ _ _
+      · exact MonoR.refl _
+  · split
+    · intro v _; cases v; rfl
+    · exact MonoR.refl _
+
+theorem taproot_seq : SeqTightening twTaproot :=
+  ⟨taproot_exec.eval, verifyWitnessProgram_taproot_mono, fun _ _ => rfl, fun _ _ => rfl, fun _ _ => rfl,
+   fun _ _ => rfl⟩
+
+
+/-! ### P2SH -/
+
+def setP2sh (c : Ctx) (b : Bool) : Ctx := { c with flags := { c.flags with p2sh := b } }
+
+theorem setP2sh_agree (c : Ctx) (b : Bool) : SigAgree c (setP2sh c b) :=
+  ⟨fun _ => rfl, fun _ _ => rfl, rfl, rfl, rfl⟩
+
+theorem opCheckMultisig_p2sh (c : Ctx) (b v : Bool) (st : St) :
+    opCheckMultisig (setP2sh c b) st v = opCheckMultisig c st v := by
+  unfold opCheckMultisig
+  simp only [multisigLoop_congr (setP2sh_agree c b), multisigStrip_congr (setP2sh_agree c b)]
+  rfl
+
+set_option maxHeartbeats 2000000 in
+theorem execOp_p2sh (c : Ctx) (b : Bool) (op : Nat) (rest : Bytes) (st : St) :
+    execOp (setP2sh c b) op rest st = execOp c op rest st := by
+  unfold execOp
+  split <;> first | rfl | exact opCheckMultisig_p2sh c b _ st
+
+theorem p2sh_step : StepTightening setP2sh :=
+  ⟨fun c op rest st => MonoR.of_eq (by rw [execOp_p2sh, execOp_p2sh]),
+   fun _ _ _ _ _ => rfl, fun _ _ => rfl, fun _ _ => rfl⟩
+
+theorem evalScript_p2sh_off (fl : Flags) (chk : Checker) (script : Bytes) (stack out : List Bytes)
+    (h : evalScript (baseCtx { fl with p2sh := true } chk) script stack = .ok out) :
+    evalScript (baseCtx { fl with p2sh := false } chk) script stack = .ok out :=
+  evalScript_mono p2sh_step (baseCtx fl chk) script stack 0 out h
+
+theorem verifyScript_p2sh_off (fl : Flags) (hcs : fl.cleanstack = false) (hw : fl.witness = false)
+    (chk : Checker) (scriptSig scriptPubKey : Bytes) (wit : List Bytes)
+    (h : verifyScript { fl with p2sh := true } chk scriptSig scriptPubKey wit = .ok ()) :
+    verifyScript { fl with p2sh := false } chk scriptSig scriptPubKey wit = .ok () := by
+  have ev : ∀ s st out, evalScript (baseCtx { fl with p2sh := true } chk) s st = .ok out →
+      evalScript (baseCtx { fl with p2sh := false } chk) s st = .ok out :=
+    fun s st out => evalScript_p2sh_off fl chk s st out
+  generalize hT : ({ fl with p2sh := true } : Flags) = flT at h ev
+  generalize hF : ({ fl with p2sh := false } : Flags) = flF at ev ⊢
+  have eTp : flT.p2sh = true := by rw [← hT]
+  have eFp : flF.p2sh = false := by rw [← hF]
+  have eTs : flT.sigpushonly = flF.sigpushonly := by rw [← hT, ← hF]
+  have eTw : flT.witness = false := by rw [← hT]; exact hw
+  have eFw : flF.witness = false := by rw [← hF]; exact hw
+  have eFc : flF.cleanstack = false := by rw [← hF]; exact hcs
+  have eTc : flT.cleanstack = false := by rw [← hT]; exact hcs
+  unfold verifyScript at h ⊢
+  simp only [eTp, eFp, eTs, eTw, eFw, eFc, eTc, Bool.false_and, Bool.true_and, Bool.false_eq_true, if_false, if_true,
+    bind, Except.bind, pure, Except.pure] at h ⊢
+  split at h
+  · cases h
+  · rename_i hpo
+    rw [if_neg hpo]
+    split at h
+    · cases h
+    · rename_i stack0 h0
+      rw [ev _ _ _ h0]
+      simp only []
+      split at h
+      · cases h
+      · rename_i stack1 h1
+        rw [ev _ _ _ h1]
+        simp only []
+        split at h
+        · cases h
+        · rfl
 
 end BV.C06.Lemmas
